@@ -191,6 +191,9 @@ def probe_orphan_sibling(seed, n):
                             await sm.send("go")
                         except RuntimeError:
                             raised = True
+                        except BaseException as e:     # e.g. the CancelledError of a cancelled sibling
+                            fails.append(f"{what}: the caller got {type(e).__name__} instead of the callback's exception")
+                            raised = True
                         mark.append(len(log))
                         for _ in range(k + 3):
                             await asyncio.sleep(0)
@@ -204,11 +207,18 @@ def probe_orphan_sibling(seed, n):
                         sm.send("go")
                     except RuntimeError:
                         raised = True
+                    except BaseException as e:
+                        if isinstance(e, (KeyboardInterrupt, SystemExit)):
+                            raise
+                        fails.append(f"{what}: the caller got {type(e).__name__} instead of the callback's exception")
+                        raised = True
                     mark.append(len(log))
                     for _ in range(3):
                         sm.send("other")
             judge(raised)
-        except Exception as e:
+        except BaseException as e:
+            if isinstance(e, (KeyboardInterrupt, SystemExit)):
+                raise
             fails.append(f"{what}: {type(e).__name__}: {e}; log {log}")
     return cases, fails
 
